@@ -189,6 +189,25 @@ impl<T: InternalVertexInfo + super::sealed::__Sealed> VertexInfo for T {
                 .map(RequiredProperty::new)
         }));
 
+        // Tagged properties of this vertex may also be used outside this component's vertices:
+        // in filters on the count of a fold in this component, or anywhere inside such a fold,
+        // in which case the fold imports the tag.
+        let properties = properties.chain(current_component.folds.values().flat_map(|fold| {
+            let imported_tags = fold.imported_tags.iter();
+            let post_filter_tags =
+                fold.post_filters.iter().filter_map(|f| f.right().and_then(Argument::as_tag));
+
+            imported_tags
+                .chain(post_filter_tags)
+                .filter_map(|field_ref| match field_ref {
+                    FieldRef::ContextField(ctx) if ctx.vertex_id == current_vertex.vid => {
+                        Some(ctx.field_name.clone())
+                    }
+                    _ => None,
+                })
+                .map(RequiredProperty::new)
+        }));
+
         let mut seen_property = HashSet::new();
         Box::new(properties.filter(move |r| seen_property.insert(r.name.clone())))
     }
